@@ -19,6 +19,13 @@ pub const NAMES: &[&str] = &[
     // ASCII characters between 'Z' and 'a' (0x5B-0x60): they sort above every letter under
     // upper-casing and below the lower-case letters under lower-casing
     "_a", "a_", "[b", "]b", "^b", "`b", "B_", "b^", "__SRP_0", "Module1", "_VBA_PR", "ThisWor", "{c", "~c", "@c",
+    // U+0000 is an ordinary character of a counted name (trailing, leading, alone)
+    "a\0", "ab\0\0", "\0", "\0a", "A\0",
+    // titlecase digraphs (no Lowercase property, yet they have an upper-case form) and
+    // polytonic Greek with iota subscript (full upper-casing expands, simple does not),
+    // next to siblings that sort between the two forms
+    "\u{1c5}a", "\u{1c4}b", "\u{1c8}x", "\u{1c7}y", "\u{1f2}m", "\u{1f1}n", "\u{1cb}",
+    "\u{1fb6}", "\u{1f80}", "\u{1f88}", "\u{1f84}", "\u{1ff3}", "\u{1ffc}", "\u{1ff6}", "\u{1fc3}", "\u{1fc6}",
 ];
 
 /// Invalid names (C09 / C10 refusal classes).
@@ -355,6 +362,28 @@ impl Gen {
     /// Next step(s) of a namespace/content history (C01 family).  Streams with a live
     /// handle are never removed or overwritten.
     pub fn next(&self, rng: &mut Rng, sess: &Session) -> Vec<Step> {
+        let steps = self.next_raw(rng, sess);
+        // A second handle on (or a removal / re-creation of) a stream that already has a
+        // live handle is outside the histories the model describes: a handle caches its
+        // stream's length.  A freshly drawn name can coincide with such a stream.
+        let collides = steps.iter().any(|st| {
+            let path = match st {
+                Step::HOpen { path, .. } => Some(path),
+                Step::Api(Op::CreateStream(p) | Op::CreateNewStream(p) | Op::RemoveStream(p)) => Some(p),
+                _ => None,
+            };
+            match path.and_then(|p| model::normalise(p)) {
+                Some(names) => sess.handle_on(&names).is_some(),
+                None => false,
+            }
+        });
+        if collides {
+            return vec![Step::Api(Op::Walk)];
+        }
+        steps
+    }
+
+    fn next_raw(&self, rng: &mut Rng, sess: &Session) -> Vec<Step> {
         let idx = index(sess);
         let n_objects = idx.storages.len() + idx.streams.len();
         if rng.below(100) < self.cfg.refusal_pct {
